@@ -209,20 +209,23 @@ def fips_strategy(tier):
 def check_duplex(c):
     b, r = c["b"], c["r"]
     k = guard(Keccak, b=b, r=r, len=64)
+    nist = not c.get("native")
+    if not nist:
+        k.duplexing = True       # a native-bit-order sponge (as SHA3/SHAKE objects are): its hash calls stay native after duplexing
     D = R.Duplex(b, r)
     for i, (m, L, outlen) in enumerate(c["calls"]):
         if isinstance(outlen, tuple):
             # ... the same with a per-call rate (r=), which the object sets and restores around the call
             r2 = outlen[1]
             got = guard(k, m, bitlen=L, r=r2) if L else guard(k, m[:0], r=r2)
-            exp = R.keccak(b, r2, m, L, 64, True) if L else R.keccak(b, r2, b"", 0, 64, True)
+            exp = R.keccak(b, r2, m, L, 64, nist) if L else R.keccak(b, r2, b"", 0, 64, nist)
             if got != exp:
                 raise Violation("duplex-history:interleaved-hash-with-rate!=reference", {"call": i, "out": exp}, {"call": i, "out": got})
             continue
         if outlen == "hash":
             # an ordinary one-shot hash on the same object between duplexing calls: it has its own state and bit order
             got = guard(k, m, bitlen=L) if L else guard(k, m[:0])
-            exp = R.keccak(b, r, m, L, 64, True) if L else R.keccak(b, r, b"", 0, 64, True)
+            exp = R.keccak(b, r, m, L, 64, nist) if L else R.keccak(b, r, b"", 0, 64, nist)
             if got != exp:
                 raise Violation("duplex-history:interleaved-hash!=reference", {"call": i, "out": exp}, {"call": i, "out": got})
             continue
@@ -256,7 +259,7 @@ def duplex_strategy(tier):
             ols = gen.pick((2, st.none()), (4, gen.uint(1, r)), (2, st.sampled_from(sorted(set([1, min(8, r), r])))), (2, st.just("hash")),
                             (2, st.sampled_from([("hash-r", r), ("hash-r", max(3, r - 1)), ("hash-r", min(b - 1, r + 8))])))
             return st.lists(st.builds(one, Ls, ols, gen.blob(32)), min_size=1, max_size=maxcalls).map(
-                lambda calls: {"b": b, "r": r, "calls": tuple(calls)})
+                lambda calls: {"b": b, "r": r, "calls": tuple(calls), "native": len(calls[0][0]) % 2 == 1})
         w = b // 25
         top = min(b - 1, 1536)
         rates = [x for x in sorted(set([3, 8, 9, 16, 24, 40, 64, b - 2, b - 1, b // 2, 1027, 1024, 1088, 1344])) if 3 <= x <= top]
@@ -323,7 +326,8 @@ FACETS = [
           shards={"quick": 16, "thorough": 32}, nontrivial=lambda c: len(c["calls"]) >= 2,
           classify=lambda c: ("b=%d" % c["b"], "calls=%d" % len(c["calls"]), "has over-long input" if any(L > c["r"] - 2 and o != "hash" and not isinstance(o, tuple) for _, L, o in c["calls"]) else "all fit",
                               "has interleaved hash" if any(o == "hash" for _, _, o in c["calls"]) else "no plain hash",
-                              "has interleaved hash with r=" if any(isinstance(o, tuple) for _, _, o in c["calls"]) else "no hash with r="),
+                              "has interleaved hash with r=" if any(isinstance(o, tuple) for _, _, o in c["calls"]) else "no hash with r=",
+                              "native-order object" if c.get("native") else "NIST-order object"),
           rule="1..4 (10) duplexing calls on one object (input 0..r-2 bits, output 1..r bits) against the reference duplex object after every call; "
                "an input longer than r-2 bits must be refused; ordinary hash calls on the same object (also with a per-call rate r=) are interleaved and must neither disturb nor be disturbed"),
     Facet("reused-object", check_history, strategy=history_strategy, budget={"quick": 300, "thorough": 8000},
